@@ -34,6 +34,6 @@ theorem output_expressions_grammatical (e : Expr) (hwf : Spec.Grammar.WF e = tru
     Spec.Grammar.Gram (Printer.paren Generated.precTable e) = true :=
   C02.paren_grammatical e hwf
 
-example : (RaiseSites.modelled.filter fun s => s.2.2.2 == .fstring).length = 8 := by decide
+example : (RaiseSites.modelled.filter fun s => s.2.2.2 == .fstring).length = 9 := by decide
 
 end PMV.C08
